@@ -554,6 +554,11 @@ func (x *Exec) typeAssert(fr *Frame, st *State, i *ssa.TypeAssert) {
 		// boxing the extracted value gives the interface value back
 		vc.assume(st.pc, fmt.Sprintf("(=> %s (= (box_%s %s %s) %s))", ok, tag, vc.typeID(i.AssertedType), val, xv))
 	}
+	if x.top != nil && x.top.ct != nil && x.top.ct.UnboxNonNil && pointee(i.AssertedType) != nil {
+		// [A] typed-nil pointers inside interface values do not occur
+		vc.assume(st.pc, fmt.Sprintf("(=> %s (not (= %s 0)))", ok, val))
+		vc.usedAssumed["pointers extracted from interface values by type assertion are non-nil (no typed-nil pointers inside interfaces) in "+x.top.unit] = true
+	}
 	if i.CommaOk {
 		okc := vc.define("taok", "Bool", ok)
 		v := fmt.Sprintf("(ite %s %s %s)", okc, val, vc.zeroOf(i.AssertedType))
